@@ -3,7 +3,6 @@ import itertools
 import re
 
 import vlib
-from vlib import coq_path
 
 ID = "C20"
 THEOREMS = ["C20_roundtrip", "C20_target_roundtrip", "C20_root_refuted", "C20_root_only_exception",
@@ -32,6 +31,8 @@ MANIFEST = {
 }
 
 ALPHA = [".", "%", "a", "0", "-", "@", "_", "\"", "\\", "[", "]", " ", "é"]
+ALPHA7 = [".", "a", "0", "\"", "\\", "[", "]"]
+ALPHA5 = [".", "a", "0", "[", "]"]
 EXTRA = ["{", "}", "b", "1", "9", "(", ")", "'", "n", "s", "r", "t", "\t", "!", "E", "x", "+", ",", "u", "日", "\U0001f916", "$"]
 FIELD_POOL = ["", "a", "b", "foo", "a b", "a.b", "a\"b", "a\\b", "\\", "\"", "\\\"", "\"\"", "0", "007", "0a", "_", "_a", "a_", "@timestamp",
               "a@b", "a-b", "-", "-a", "[0]", "[", "]", "a[1]", " ", "  x ", ".", "..", "%", "%a", "é", "naïve", "日本",
@@ -134,7 +135,7 @@ def rand_text(rng):
             sep = "" if (k == 0 and pre and pre[-1] in ".%") else rng.choice([".", ".", ".", ".", "", ".."])
             t += sep + spell_field(rng, f)
         else:
-            t += spell_index(rng, rand_index(rng) if rng.random() < 0.7 else rng.choice([10**19, -10**19, 2**63, -2**63 - 1, 2**64, 10**30]))
+            t += rng.choice(["", "", "", "", "", "", ".", ".", " "]) + spell_index(rng, rand_index(rng) if rng.random() < 0.7 else rng.choice([10**19, -10**19, 2**63, -2**63 - 1, 2**64, 10**30]))
     if rng.random() < 0.1:
         t += rng.choice([" ", ".", "[", "\"", "\\", "  ", "]", "-"])
     if rng.random() < 0.15 and t:
@@ -150,37 +151,114 @@ def all_texts(alpha, maxlen, minlen=0):
             yield "".join(tup)
 
 
+def blocks(tier):
+    """The exhaustive blocks: (kind, alphabet, n, prefix).  A block stands for every text prefix ++ w with w a word of
+    exactly n alphabet symbols.  Large blocks are split by their first symbol so that they run in parallel."""
+    thorough = tier != "quick"
+    out = []
+
+    def add(kind, alpha, n, prefix="", split=0):
+        if split and n > split:
+            for a in alpha:
+                add(kind, alpha, n - 1, prefix + a, split)
+        else:
+            out.append((kind, alpha, n, prefix))
+
+    # all texts over the full path alphabet through both path-string parsers
+    for L in range(0, (6 if thorough else 5) + 1):
+        add("parse", ALPHA, L, split=4)
+    # longer texts over the sub-alphabets that matter for the state machine (segment boundaries, quotes, indices)
+    add("parse", ALPHA7, 6, split=5)
+    add("parse", ALPHA5, 7, split=6)
+    if thorough:
+        add("parse", ALPHA7, 7, split=5)
+        add("parse", ALPHA7, 8, split=5)
+        add("parse", ALPHA5, 8, split=6)
+        add("parse", ALPHA5, 9, split=6)
+    # texts as VRL programs
+    for L in range(0, (5 if thorough else 4) + 1):
+        add("vrl", ALPHA, L, split=3)
+    for h in [".", "%"] + ([" ."] if thorough else []):
+        add("vrl", ALPHA, 5 if thorough else 4, prefix=h, split=3)
+    add("vrl", ALPHA7, 5, prefix=".", split=4)
+    add("vrl", ALPHA5, 6, prefix=".", split=5)
+    if thorough:
+        add("vrl", ALPHA7, 6, prefix=".", split=4)
+        add("vrl", ALPHA7, 6, prefix="%", split=4)
+        add("vrl", ALPHA5, 8, prefix=".", split=5)
+    return out
+
+
+def block_case(b):
+    kind, alpha, n, prefix = b
+    return {"op": "exhaust", "kind": kind, "alpha": [hx(a) for a in alpha], "n": n, "prefix": hx(prefix)}
+
+
+def run_blocks(bs):
+    """Runs the blocks through the harness (one process per block, in parallel) and returns, per block, the texts on
+    which the implementation did anything but fail."""
+    import concurrent.futures as cf
+    cases = [block_case(b) for b in bs]
+    with cf.ThreadPoolExecutor(max_workers=vlib.NPROC) as ex:
+        outs = list(ex.map(lambda c: vlib.run_harness("pathtext", [c], procs=1)[0], cases))
+    return cases, outs
+
+
 def gen_cases(run, n):
-    """n = number of random cases of each stream; the exhaustive streams are fixed per tier."""
+    """n = number of random cases of each stream; the exhaustive blocks are fixed per tier.
+    Every text of a block on which the implementation does not simply fail becomes an individual parse / vrl case
+    (so that it has its own replay); the block case itself carries the claim that all the other texts fail."""
     rng = run.rng
     thorough = run.tier != "quick"
     cases = []
     # (a) random owned paths -> render -> parse
     for _ in range(n):
         cases.append({"op": "render", "prefix": rng.choice(["value", "value", "event", "metadata"]), "p": rand_owned_path(rng)})
-    # (b) all short texts through both path-string parsers
-    for t in all_texts(ALPHA, 5 if thorough else 4):
-        cases.append({"op": "parse", "t": hx(t)})
-    # (c) texts through the VRL parser/compiler
-    for t in all_texts(ALPHA, 4 if thorough else 3):
-        cases.append({"op": "vrl", "t": hx(t)})
-    L = 5 if thorough else 4
-    for t in all_texts(ALPHA, L - 1, L - 1):
-        for h in ([".", "%", " ."] if thorough else [".", "%"]):
-            cases.append({"op": "vrl", "t": hx(h + t)})
+    # (b), (c) exhaustive blocks
+    bcases, bouts = run_blocks(blocks(run.tier))
+    seen = set()
+    for bc, bo in zip(bcases, bouts):
+        if not isinstance(bo, dict) or "oks" not in bo:
+            continue            # the block case itself will show the harness failure
+        op = "parse" if bc["kind"] == "parse" else "vrl"
+        for t in bo["oks"]:
+            if (op, t) not in seen:
+                seen.add((op, t))
+                cases.append({"op": op, "t": t})
+    # random / structured texts
     for _ in range(n):
         t = rand_text(rng)
         cases.append({"op": "parse", "t": hx(t)})
         cases.append({"op": "vrl", "t": hx(t)})
     if thorough:
-        for _ in range(20 * n):
-            cases.append({"op": "parse", "t": hx("".join(rng.choice(ALPHA) for _ in range(rng.randint(6, 7))))})
-    return cases
+        for _ in range(10 * n):
+            cases.append({"op": "parse", "t": hx("".join(rng.choice(ALPHA) for _ in range(rng.randint(7, 9))))})
+    # spread the (heavy) block cases evenly so that the harness processes share them
+    step = max(1, len(cases) // (len(bcases) + 1))
+    outl = []
+    k = 0
+    for i, c in enumerate(cases):
+        if i % step == 0 and k < len(bcases):
+            outl.append(bcases[k])
+            k += 1
+        outl.append(c)
+    outl += bcases[k:]
+    return outl
 
 
 # ---- rendering of cases as Gallina terms
 def coq_text(h):
-    return '(hx "%s")' % h
+    return "(nb %d 0x%s)" % (len(h) // 2, h or "0")
+
+
+def coq_path(p):
+    segs = []
+    for s in p:
+        if "f" in s:
+            segs.append("SField %s" % coq_text(s["f"]))
+        else:
+            segs.append("SIndex %s" % vlib.coq_z(s["i"]))
+    return "[%s]" % "; ".join(segs)
 
 
 def coq_prefix(p):
@@ -215,6 +293,10 @@ def to_coq(c, o):
         v, tg = o["value"], o["target"]
         return "CParse %s %s %s %s %s" % (coq_text(c["t"]), coq_pres(v["res"], coq_path), coq_rerender(v, coq_path),
                                           coq_pres(tg["res"], coq_tpath), coq_rerender(tg, coq_tpath))
+    if c["op"] == "exhaust":
+        return "CExhaust %s %s [%s] %d [%s]" % ("true" if c["kind"] == "vrl" else "false", coq_text(c["prefix"]),
+                                                 "; ".join(coq_text(a) for a in c["alpha"]), c["n"],
+                                                 "; ".join(coq_text(t) for t in o["oks"]))
     if c["op"] == "vrl":
         if o["ast"] == "panic":
             raise ValueError("the VRL parser panicked")
@@ -243,6 +325,8 @@ def failure_tags(c, o):
             if part.get("reparse") != r:
                 tags.add("root" if is_root(r["ok"]) and part.get("reparse") == "err" else "other")
 
+    if c["op"] == "exhaust":
+        return tags
     if c["op"] == "render":
         want = {"ok": c["p"]} if c["prefix"] == "value" else {"ok": {"prefix": c["prefix"], "p": c["p"]}}
         if o["reparse"] != want:
@@ -273,7 +357,9 @@ def known_matcher(entry, c, o):
 def nontrivial(c):
     if c["op"] == "render":
         return len(c["p"]) >= 1
-    return len(c["t"]) >= 4
+    if c["op"] == "exhaust":
+        return c["n"] >= 3
+    return len(c["t"]) >= 6
 
 
 def fast_evaluate(prop, imports, fam, to_coq, cases, what=("check", "oracle"), tag="cases", shard=2500):
@@ -323,7 +409,13 @@ def fast_evaluate(prop, imports, fam, to_coq, cases, what=("check", "oracle"), t
                 continue
             for w, m in zip(what, ms):
                 res[w] += [keep[start + int(x)] for x in re.findall(r"\d+", m)]
-    return outs, sorted(res.get("check", [])), sorted(res.get("oracle", [])), sorted(failed), err
+    bad_oracle = sorted(res.get("oracle", []))
+    if tag == "shrink":
+        # a shrinking step must not slide from the failure being minimised into a recorded known-finding class
+        # (e.g. dropping every segment of a path lands on the root, which is known not to re-parse)
+        known = {e["match"]["tag"] for e in vlib.known_findings(prop)}
+        bad_oracle = [i for i in bad_oracle if not (failure_tags(cases[i], outs[i]) <= known)]
+    return outs, sorted(res.get("check", [])), bad_oracle, sorted(failed), err
 
 
 def main(run, args):
